@@ -2,6 +2,7 @@ import RsslVerif.Driver.C03
 import RsslVerif.Model.StmtX
 import RsslVerif.Model.Intrinsics
 import RsslVerif.Model.TypeMods
+import RsslVerif.Model.RetScope
 /-! Line-protocol front end of the extended C03 model (`C03.progx`, `C03.typex`); formats are described in
 `harness/src/c03/ext.rs`.  Requests of the old streams are answered by `Driver.C03`; `C03.prog` requests are in addition
 run through the extended model and the two answers must agree (otherwise the answer is `MODEL-MISMATCH ..`, which the
@@ -369,9 +370,85 @@ def handleDecl (layer carrier layers use storage write : String) : String :=
           if ans.startsWith "unsupported" then ans else "decl " ++ showMods m.toModifier ++ " " ++ verdict
   | _, _, _, _ => "unsupported request"
 
+/-! ## `C03.ret`: returns after template instantiations inside a function body (format: harness/src/c03/ret.rs) -/
+
+namespace Ret
+open RsslVerif.Model.RetScope
+
+def parseRef (s : String) : Option TyRef :=
+  if s == "T" then some .tparam else (Code.ofName? s).map .lit
+
+mutual
+/-- items of a body; the counter numbers `st` / `ft` nodes in pre-order (names as the harness spells them) -/
+partial def toItems (k : Nat) : List Sx → Option (Items × Nat)
+  | [] => some (.nil, k)
+  | x :: rest => do
+    let (i, k1) ← toItem k x
+    let (r, k2) ← toItems k1 rest
+    pure (.cons i r, k2)
+partial def toItem (k : Nat) : Sx → Option (Item × Nat)
+  | .list [.atom "ret", .atom v] =>
+    if v == "-" then some (.ret none, k) else (parseRef v).map fun r => (.ret (some r), k)
+  | .list (.atom "if" :: body) => (toItems k body).map fun (b, k') => (.blk b, k')
+  | .list (.atom "st" :: .atom form :: .atom a :: ms) => do
+    if !(["local", "cast", "sizeof", "twice", "init"].contains form) then none
+    let arg ← parseRef a
+    let (m, k') ← toMethods ("b" ++ toString k) 0 (k + 1) ms
+    pure (.st (form == "local" || form == "twice" || form == "init") arg m, k')
+  | .list (.atom "ft" :: .atom r :: .atom a :: body) => do
+    let rt ← parseRef r
+    let arg ← parseRef a
+    let (b, k') ← toItems (k + 1) body
+    pure (.ft ("ft" ++ toString k) rt arg b, k')
+  | _ => none
+partial def toMethods (pre : String) (j k : Nat) : List Sx → Option (Methods × Nat)
+  | [] => some (.nil, k)
+  | .list (.atom "m" :: .atom r :: body) :: rest => do
+    let rt ← parseRef r
+    let (b, k1) ← toItems k body
+    let (ms, k2) ← toMethods pre (j + 1) k1 rest
+    pure (.cons (pre ++ "m" ++ toString j) rt b ms, k2)
+  | _ => none
+end
+
+partial def toRoots (k : Nat) : List Sx → Option (List Root)
+  | [] => some []
+  | .list (.atom "fn" :: .atom r :: body) :: rest => do
+    let rt ← Code.ofName? r
+    let (b, k1) ← toItems (k + 1) body
+    let rs ← toRoots k1 rest
+    pure (.fn ("fn" ++ toString k) rt b :: rs)
+  | .list (.atom "sm" :: ms) :: rest => do
+    let (m, k1) ← toMethods ("p" ++ toString k) 0 (k + 1) ms
+    let rs ← toRoots k1 rest
+    pure (.sm m :: rs)
+  | _ => none
+
+def showEv (e : Ev) : String := match e.got with | none => "-" | some _ => e.want.name
+
+def handleRet (prog : String) : String :=
+  match readSx prog with
+  | some (.list (.atom "prog" :: roots)) =>
+    match toRoots 0 roots with
+    | none => "unsupported request"
+    | some rs =>
+      match elabProg rs with
+      | .error (.wrongReturn g w) => "reject WrongTypeInReturnStatement got=" ++ g.name ++ " want=" ++ w.name
+      | .error (.panic m) => "panic " ++ m
+      | .error .unknownTypeName => "unsupported T outside a template"
+      | .error .expectedExpression => "reject ExpectedExpressionReceivedType"
+      | .ok evs =>
+        let names := (rs.flatMap namesRoot).mergeSort (fun a b => !(b < a))
+        "accept " ++ ";".intercalate (names.map fun n =>
+          n ++ ":" ++ ",".intercalate ((evs.filter (·.owner == n)).map showEv))
+  | _ => "unsupported request"
+
+end Ret
+
 def handle (op : String) (args : List String) : String :=
   match op, args with
   | "C03.decl", [layer, carrier, layers, use, storage, write] => handleDecl layer carrier layers use storage write
+  | "C03.ret", [prog] => Ret.handleRet prog
   | _, _ => handleX op args
 
 end RsslVerif.Driver.C03X
